@@ -162,6 +162,17 @@ EXTRA6 = {
 }
 for k, v in EXTRA6.items():
     CHECKS[k]['text'] += v
+EXTRA7 = {
+ 'C01': " The lifecycle part binds a remote stream with the SSRC number of a local stream and unbinds every stream: each Unbind reaches every member.",
+ 'C04': " C04R also reads two compounds of two NACK packets each on one reader, the second while requests of the first may be under way.",
+ 'C06': " Part C06R (E1, -race): two packets with a gap arrive while the report loop builds the first report and writes it (a scheduling point); on every schedule the reports of two consecutive ticks agree with the arrivals (every packet belongs to exactly one interval).",
+ 'C09': " Every rtpfb.Report handed to the application is kept and compared again at the end of the history: it does not change when later feedback is read.",
+ 'C11': " Remote sequence numbers start at 65529 (the third packet of a stream is 65535, later ones have wrapped).",
+ 'C13': " Every second packet of the one-byte-extension shape carries a longer value in the same extension.",
+ 'C14': " Part C14R (E1, -race): two threads write b,b+2,b+3 and b+1 of one stream so that consecutive batches complete on different threads; every repair packet decodes against the packets written, repair sequence numbers are distinct and contiguous, media packets are forwarded once and unmodified.",
+}
+for k, v in EXTRA7.items():
+    CHECKS[k]['text'] += v
 checks = []
 for pid in sorted(CHECKS):
     c = CHECKS[pid]
